@@ -15,7 +15,7 @@ def gen_history(r, quick, ids):
     genesis = 10**15
     users = 5
     fn, fb = X.GAS_NORMAL * price, X.GAS_BVM * price
-    levels = sorted(set(v for v in [1, fn - 1, fn, fn + 1, fb - 1, fb, fb + 1, 2 * fb + 12345, fb + fn, 3 * fb + 7, 10**13] if v >= 1))
+    levels = sorted(set(v for v in [0, 1, fn - 1, fn, fn + 1, fb - 1, fb, fb + 1, 2 * fb + 12345, fb + fn, 3 * fb + 7, 10**13] if v >= 0))
     pre, funded = [], {}
     for u in range(users):
         lv = r.choice(levels)
@@ -200,7 +200,7 @@ def run(ctx):
     ids = X.Ids()
     if ctx.model_ok:
         items = corpus_histories(ids)
-        n = 60 if ctx.quick else 1500
+        n = 150 if ctx.quick else 2000
         items += [gen_history(ctx.rng, ctx.quick, ids) for _ in range(n)]
         outs, e = X.run_histories(exe, [to_history(g) for g in items])
         if outs is None:
